@@ -28,7 +28,7 @@ META = {
              'from outside are counted separately and must be > 0.',
         assumptions=COMMON_ASSUME,
         required=['steps_monitored', 'configs_with_orthogonal_active', 'region_descendant_entered_from_outside',
-                  'c02_post_final_steps'],
+                  'c02_post_final_steps', 'shipped_steps_checked'],
         modes=[('legal', 5, dict(p_orth=0.45, p_final=0.3)), ('history', 3, dict(p_hist=0.8, p_orth=0.4, p_compound=0.45, min_states=6)),
                ('orth', 2, dict(p_orth=0.5, p_hist=0.4))],
     ),
@@ -40,7 +40,8 @@ META = {
              'configuration is recomputed micro step by micro step.  Non-trivial = distinct steps with >= 2 '
              'transitions, an exit list of >= 3 states, or an orthogonal state entered/exited.',
         assumptions=COMMON_ASSUME + ['order between cousins / between default entries of different branches is not judged'],
-        required=['steps_monitored', 'c03_trace_checks', 'c03_multi_transition_steps', 'c03_orth_sibling_lists'],
+        required=['steps_monitored', 'c03_trace_checks', 'c03_multi_transition_steps', 'c03_orth_sibling_lists',
+                  'shipped_steps_checked'],
         modes=[('order', 6, dict(p_orth=0.5, max_trans=16, p_state_send=0.15)), ('legal', 2, dict(p_orth=0.45)),
                ('history', 2, dict(p_hist=0.7, p_orth=0.4, p_state_send=0.15))],
     ),
